@@ -168,7 +168,7 @@ func (r *tr) kop(mode string) *kop {
 		op.h, op.h2 = r.i(), r.i()
 	case "trace":
 		op.h, op.key, op.after = r.i(), r.sval(), r.z()
-	case "list":
+	case "list", "mark":
 	case "recover":
 		op.seed = r.z()
 		r.names()
